@@ -134,7 +134,10 @@ func renderAxes(b *strings.Builder, sub string, axes []AxisDesc) {
 					f = append(f, fmt.Sprintf("note_negative = %d", a.NoteNeg))
 				}
 			case "action":
-				f = append(f, fmt.Sprintf("action = %q", a.Action), fmt.Sprintf("action_negative = %q", a.ActNeg))
+				f = append(f, fmt.Sprintf("action = %q", a.Action))
+				if a.ActNeg != "" {
+					f = append(f, fmt.Sprintf("action_negative = %q", a.ActNeg))
+				}
 			}
 			if a.Off != 0 {
 				f = append(f, fmt.Sprintf("channel_offset = %d", a.Off))
